@@ -681,6 +681,12 @@ def _pnm(L, modes, viols, stats=None):
         if bad:
             V("marginal_gaussian_vs_reference", "modes %s outcome %s: reduced-state probability %.12g, reference marginal %.12g"
               % (modes, bad[0], pg[bad[0]], ref.get(bad[0], 0.0)))
+    # the real samplers, one shot, every path under harness-owned randomness: the induced law of the
+    # sampled occupations must be the reference marginal (the Gaussian sampler is a chain of conditional
+    # draws over the mode list AS GIVEN, so non-ascending lists are a case of their own)
+    for simname, sim, st in (("gaussian", gs, L.G), ("fock", fs, L.F)):
+        if st is not None:
+            _sampler_law(simname, sim, st, modes, ref, V, stats)
     if L.F is None:
         return
     try:
@@ -710,6 +716,53 @@ def _pnm(L, modes, viols, stats=None):
         elif p > PNM_DROP:
             V("pnm_weights_fock_vs_reference", "modes %s outcome %s missing, reference %.12g" % (modes, o, p))
             break
+
+
+SAMPLER_TOL = 1e-6  # law of the sampler: a chain of <= d clipped ratios of sqrt(det(.)) values (each ~1e-8 near zero)
+
+
+def _sampler_law(simname, sim, state, modes, ref, V, stats):
+    import piquasso as pq
+    from mc import core
+    from mc.choice import ChoiceController, owned_randomness
+
+    ctl = ChoiceController(max_paths=4096)
+
+    def fn():
+        res = sim.execute_instructions([pq.ParticleNumberMeasurement().on_modes(*modes)], initial_state=state, shots=1)
+        return tuple(tuple(int(x) if float(x) == int(x) else float(x) for x in smp) for smp in res.samples)
+
+    with owned_randomness(ctl):
+        ex = ctl.explore(fn)
+    if not ex.complete:
+        raise core.HarnessError("C17: HARNESS-CAP sampler exploration cut (%s)" % (ex.cap_reasons,))
+    if stats is not None:
+        stats["sampler_paths_" + simname] = stats.get("sampler_paths_" + simname, 0) + ex.n_paths
+        stats["sampler_laws_" + simname] = stats.get("sampler_laws_" + simname, 0) + 1
+    order = "ascending" if list(modes) == sorted(modes) else "permuted"
+    law = {}
+    for pth in ex.paths:
+        if pth.exception is not None:
+            e = pth.exception
+            if _exc_class(e) == "refusal":
+                if stats is not None:
+                    stats["unsupported_sampler_" + simname] = stats.get("unsupported_sampler_" + simname, 0) + 1
+                return
+            V("crash", "%s ParticleNumberMeasurement(shots=1) on modes %s raised %s: %s" % (simname, modes, type(e).__name__, str(e)[:200]),
+              sim=simname, exc=type(e).__name__, order=order)
+            return
+        r = pth.result
+        if len(r) != 1 or len(r[0]) != len(modes) or any(x not in (0, 1) for x in r[0]):
+            V("sampler_occupation_not_binary", "%s sampler on modes %s returned %r" % (simname, modes, r), sim=simname, order=order)
+            return
+        law[r[0]] = law.get(r[0], 0.0) + pth.prob
+    if abs(sum(law.values()) - 1.0) > SAMPLER_TOL:
+        raise core.HarnessError("C17: sampler path probabilities sum to %r" % (sum(law.values()),))
+    for o in sorted(set(law) | set(ref)):
+        if abs(law.get(o, 0.0) - ref.get(o, 0.0)) > SAMPLER_TOL:
+            V("sampler_law_vs_reference", "%s sampler, modes %s: P(sample = %s) = %.12g over all %d paths, reference marginal %.12g"
+              % (simname, modes, o, law.get(o, 0.0), ex.n_paths, ref.get(o, 0.0)), sim=simname, order=order)
+            return
 
 
 # ----------------------------------------------------------------------------------------------
@@ -952,6 +1005,9 @@ def _assumptions(ctx):
     ctx.assume("shots=None drops outcomes with np.isclose(p, 0): a missing outcome is accepted iff its reference probability <= 2e-8")
     ctx.assume("GaussianSimulator refuses ParticleNumberMeasurement with shots=None (unsupported cell); its reduced-state detection "
                "probabilities (what its sampler uses) are compared with the Fock simulator's shots=None weights instead")
+    ctx.assume("samplers: ParticleNumberMeasurement(shots=1) of both simulators is executed on every path of its random draws "
+               "(harness-owned Config.rng / Config._random); the induced law must equal the reference marginal within 1e-6 "
+               "(the Gaussian sampler chains <= d clipped ratios of sqrt(det) values)")
     ctx.assume("only the most fundamental disagreement of a transition is reported (covariance G-vs-F, then covariance vs reference, "
                "then probabilities, then invariants); a transition with a violation is not expanded")
 
